@@ -159,6 +159,7 @@ def main():
     ap.add_argument('--jobs-per-check', type=int, default=2)
     ap.add_argument('--out', default='refactor.json')
     ap.add_argument('--only', default='')
+    ap.add_argument('--sample', type=int, default=0, help='check only N variants (seeded random choice)')
     a = ap.parse_args()
     tg, structural = targets()
     props = set(a.props.split(',')) if a.props else None
@@ -175,6 +176,8 @@ def main():
                     jobs.append((len(jobs), file, qual, desc, new_src, sel, structural, scratch, a.jobs_per_check))
             except SyntaxError as e:
                 print('skip', qual, e)
+        if a.sample and len(jobs) > a.sample:
+            jobs = sorted(random.Random(20260923).sample(jobs, a.sample), key=lambda j: j[0])
         print('%d variants of %d functions' % (len(jobs), len({(j[1], j[2]) for j in jobs})), flush=True)
         results = []
         with ThreadPoolExecutor(a.jobs) as ex:
